@@ -1,6 +1,4 @@
 // ---------------------------------------------------------------- U-iter specification (from properties C01 C04 C07 C09 C10 C11 C12)
-/// byte offset of char index k
-pub open spec fn boff(input: Seq<char>, k: int) -> nat { blen(input.take(k)) }
 
 /// char index k starts a line
 pub open spec fn starts_line(input: Seq<char>, k: int) -> bool {
@@ -107,6 +105,7 @@ pub proof fn lemma_boff_mono(inp: Seq<char>, i: int, j: int)
     requires 0 <= i <= j <= inp.len()
     ensures boff(inp, i) <= boff(inp, j), i < j ==> boff(inp, i) < boff(inp, j), boff(inp, j) <= blen(inp)
 {
+    reveal(boff);
     lemma_blen_take_mono(inp, i, j);
 }
 
@@ -114,6 +113,7 @@ pub proof fn lemma_boff_inj(inp: Seq<char>, i: int, j: int)
     requires 0 <= i <= inp.len(), 0 <= j <= inp.len(), boff(inp, i) == boff(inp, j)
     ensures i == j
 {
+    reveal(boff);
     if i < j { lemma_boff_mono(inp, i, j); }
     if j < i { lemma_boff_mono(inp, j, i); }
 }
@@ -122,12 +122,14 @@ pub proof fn lemma_boff_next(inp: Seq<char>, k: int)
     requires 0 <= k < inp.len()
     ensures boff(inp, k + 1) == boff(inp, k) + clen(inp[k])
 {
+    reveal(boff);
     lemma_blen_take_next(inp, k);
 }
 
 pub proof fn lemma_boff_ends(inp: Seq<char>)
     ensures boff(inp, 0) == 0, boff(inp, inp.len() as int) == blen(inp)
 {
+    reveal(boff);
     assert(inp.take(0) =~= Seq::<char>::empty());
     assert(inp.take(inp.len() as int) =~= inp);
 }
@@ -168,6 +170,7 @@ pub proof fn lemma_ci_at_slice(inp: Seq<char>, m: int, n: int, rem: Seq<(usize, 
         inp.skip(m).skip(n - m) == inp.skip(n),
         blen(inp.skip(m).take(n - m)) == boff(inp, n) - boff(inp, m),
 {
+    reveal(boff);
     lemma_take_take_skip(inp, m, n - m);
     assert(inp.skip(m).skip(n - m) =~= inp.skip(n));
 }
@@ -175,6 +178,7 @@ pub proof fn lemma_ci_at_slice(inp: Seq<char>, m: int, n: int, rem: Seq<(usize, 
 pub proof fn lemma_push_contains(s: Seq<usize>, a: usize, x: usize)
     ensures s.push(a).contains(x) <==> (s.contains(x) || x == a)
 {
+    reveal(boff);
     if s.push(a).contains(x) {
         let p = choose|p: int| 0 <= p < s.push(a).len() && s.push(a)[p] == x;
         if p < s.len() { assert(s[p] == x); }
@@ -197,6 +201,7 @@ pub proof fn lemma_insert_sorted(before: Seq<usize>, after: Seq<usize>, x: usize
         sorted_strict(after), after.len() >= 1, after[0] == 0,
         forall|y: usize| #![trigger after.contains(y)] #![trigger before.contains(y)] after.contains(y) <==> (before.contains(y) || y == x),
 {
+    reveal(boff);
     if after == before {
     } else {
         let i = choose|i: int| 0 <= i <= before.len() && after == before.insert(i, x)
@@ -220,6 +225,7 @@ pub proof fn lemma_lo_bounded(input: Seq<char>, lo: Seq<usize>)
     requires lo_wf(input, lo)
     ensures forall|i: int| 0 <= i < lo.len() ==> #[trigger] lo[i] <= blen(input)
 {
+    reveal(boff);
     assert forall|i: int| 0 <= i < lo.len() implies #[trigger] lo[i] <= blen(input) by {
         let k = choose|k: int| #[trigger] starts_line(input, k) && boff(input, k) == lo[i] as nat;
         lemma_boff_mono(input, k, input.len() as int);
@@ -234,6 +240,7 @@ pub proof fn lemma_ci_seq_step(inp: Seq<char>, n: int, b: nat)
         ci_seq(inp.skip(n), b)[0] == (b as usize, inp[n]),
         ci_seq(inp.skip(n), b).drop_first() == ci_seq(inp.skip(n + 1), b + clen(inp[n])),
 {
+    reveal(boff);
     let s = inp.skip(n);
     let s1 = inp.skip(n + 1);
     assert(s.take(0) =~= Seq::<char>::empty());
@@ -241,7 +248,9 @@ pub proof fn lemma_ci_seq_step(inp: Seq<char>, n: int, b: nat)
     assert forall|i: int| 0 <= i < s1.len() implies ci_seq(s, b).drop_first()[i] == ci_seq(s1, b + clen(inp[n]))[i] by {
         assert(s.take(i + 1) =~= seq![inp[n]] + s1.take(i));
         lemma_blen_add(seq![inp[n]], s1.take(i));
-        assert(seq![inp[n]].drop_last() =~= Seq::<char>::empty());
+        lemma_blen_push(Seq::<char>::empty(), inp[n]);
+        assert(seq![inp[n]] =~= Seq::<char>::empty().push(inp[n]));
+        assert(blen(Seq::<char>::empty()) == 0);
         assert(blen(seq![inp[n]]) == clen(inp[n]));
         assert(s[i + 1] == s1[i]);
     }
@@ -252,6 +261,7 @@ pub proof fn lemma_ci_seq_empty(inp: Seq<char>, n: int, b: nat)
     requires n == inp.len()
     ensures ci_seq(inp.skip(n), b).len() == 0
 {
+    reveal(boff);
 }
 
 /// a line start at char index j is a line start as a byte offset
@@ -259,4 +269,53 @@ pub proof fn lemma_line_start_byte(inp: Seq<char>, j: int)
     requires starts_line(inp, j)
     ensures is_line_start(inp, boff(inp, j))
 {
+    reveal(boff);
+}
+
+/// advance_to with a target that is the byte offset of a char boundary beyond the cursor lands exactly there
+pub proof fn lemma_adv_target_boundary(inp: Seq<char>, n0: int, q: int, n1: int)
+    requires 0 <= n0 < q <= inp.len(), adv_target(inp, n0, boff(inp, q) as int, n1)
+    ensures n1 == q
+{
+    reveal(boff);
+    if n1 < q { lemma_boff_mono(inp, n1, q); }
+    if n1 > q { assert(boff(inp, q) < boff(inp, q)); }
+}
+
+/// spans reported by the automaton are relative to the haystack slice; adding the slice's offset makes them absolute
+pub proof fn lemma_find_post_shift(d: DfaCore, cls: Cls, text: Seq<char>, base: nat, off: nat, m: Match, m2: Match)
+    requires
+        find_post(d, cls, text, base, Some(m)),
+        m2.token_type == m.token_type, m2.span.start == m.span.start + off, m2.span.end == m.span.end + off,
+    ensures find_post(d, cls, text, base + off, Some(m2))
+{
+    reveal(boff);
+    let tid = TerminalID(m.token_type as u32);
+    let l = choose|l: int| #[trigger] cand(d, cls, text, l, tid)
+        && m.span.end == base + blen(text.take(l))
+        && forall|l2: int, tid2: TerminalID| #[trigger] cand(d, cls, text, l2, tid2) ==> no_better(d, cls, text, l, tid, l2, tid2);
+    assert(cand(d, cls, text, l, TerminalID(m2.token_type as u32)) && m2.span.end == base + off + blen(text.take(l)));
+}
+
+/// the length of the winning candidate, as a char count
+pub proof fn lemma_find_post_len(d: DfaCore, cls: Cls, text: Seq<char>, base: nat, m: Match) -> (l: int)
+    requires find_post(d, cls, text, base, Some(m))
+    ensures 1 <= l <= text.len(), m.span.start == base, m.span.end == base + blen(text.take(l)), m.span.start < m.span.end
+{
+    reveal(boff);
+    let tid = TerminalID(m.token_type as u32);
+    let l = choose|l: int| #[trigger] cand(d, cls, text, l, tid)
+        && m.span.end == base + blen(text.take(l))
+        && forall|l2: int, tid2: TerminalID| #[trigger] cand(d, cls, text, l2, tid2) ==> no_better(d, cls, text, l, tid, l2, tid2);
+    lemma_blen_take_mono(text, 0, l);
+    assert(text.take(0) =~= Seq::<char>::empty());
+    l
+}
+
+pub proof fn lemma_boff_split(inp: Seq<char>, n: int, l: int)
+    requires 0 <= n, 0 <= l, n + l <= inp.len()
+    ensures boff(inp, n + l) == boff(inp, n) + blen(inp.skip(n).take(l)), inp.skip(n + l) == inp.skip(n).skip(l)
+{
+    reveal(boff);
+    lemma_take_take_skip(inp, n, l);
 }
